@@ -33,7 +33,7 @@ const char * const engine_props[] = { "C12", "C13", "C14", NULL };
 enum {
 	N_OPS, N_EA, N_EQ, N_MAP, N_POOL, N_HEAP, N_TQ, N_OVERFLOW, N_REFUSED, N_MOVED, N_F_ALLOC, N_OPFAIL,
 	N_EXPORT, N_EQ_COMPACT, N_MAP_FRONT, N_MAP_MID, N_MAP_UNKNOWN, N_POOL_GROW, N_POOL_REUSE, N_HEAP_CREATE,
-	N_HEAP_TIES, N_HEAP_BYHANDLE, N_TQ_TIES, N_TQ_NULL, N_BIG, N_MIXED, N_SHRINK_REALLOC, N_DRAINED, N_ITER, N_ITER_SHRINK, N_BIGREC
+	N_HEAP_TIES, N_HEAP_BYHANDLE, N_TQ_TIES, N_TQ_NULL, N_BIG, N_MIXED, N_SHRINK_REALLOC, N_DRAINED, N_ITER, N_ITER_SHRINK, N_BIGREC, N_POOL_FREENULL
 };
 const char * const engine_counters[] = {
 	"operations", "runs_elasticarray", "runs_elasticqueue", "runs_seqptrmap", "runs_mpool", "runs_ptrheap",
@@ -43,7 +43,7 @@ const char * const engine_counters[] = {
 	"probe_pool_object_reused", "probe_heap_create_from_array", "probe_heap_duplicate_keys", "probe_heap_by_handle_ops",
 	"probe_timerqueue_equal_times", "probe_timerqueue_getptr_null", "probe_size_over_1000", "probe_mixed_record_sizes",
 	"probe_shrink_reallocated", "probe_drained_elements", "probe_typed_iteration", "probe_iteration_visitor_shrinks",
-	"probe_enormous_record_size", NULL
+	"probe_enormous_record_size", "probe_pool_free_null", NULL
 };
 
 #define AF_SINCE(before) (simalloc_failed != (before))
@@ -719,6 +719,13 @@ pool_op(const char * op, size_t a)
 		void * p;
 		int k;
 
+		if (pool_n == 0 || a % 7 == 3) {
+			/* freeing NULL is allowed and does nothing (mpool.h: "behave consistently with free(NULL)") */
+			LIB_ENTER();
+			pool_free(NULL);
+			LIB_LEAVE();
+			R->cnt[N_POOL_FREENULL]++;
+		}
 		if (pool_n == 0)
 			return;
 		k = (int)(a % (size_t)pool_n);
@@ -1120,9 +1127,11 @@ tq_op(const char * op, size_t a, size_t b, int refuse)
 		e->tv.tv_sec = (time_t)(100 + a % (b % 2 ? 3 : 50));
 		if (a % 23 == 0) {
 			/* far-apart times: beyond 2^31 and 2^32 seconds from the others */
-			static const int64_t far[] = { 2147483647LL, 2147483648LL, 2147483749LL, 4294967296LL, 4294967396LL, 3155760000LL, 253402300799LL };
+			/* ... and the far end of time_t: around 2^63 microseconds, 2^62 seconds, and the "never" sentinel TIME_MAX */
+			static const int64_t far[] = { 2147483647LL, 2147483648LL, 2147483749LL, 4294967296LL, 4294967396LL, 3155760000LL, 253402300799LL,
+			    9223372036854LL, 9223372036855LL, 4611686018427387904LL, 9223372036854775807LL };
 
-			e->tv.tv_sec = (time_t)far[(a / 23) % 7];
+			e->tv.tv_sec = (time_t)far[(a / 23) % 11];
 		}
 		e->tv.tv_usec = (suseconds_t)((b % 4 == 0) ? 0 : (b * 7919) % 1000000);
 		e->live = 0;
@@ -1157,6 +1166,8 @@ tq_op(const char * op, size_t a, size_t b, int refuse)
 
 		if ((e = h_pick(a)) == NULL)
 			return;
+		if (e->tv.tv_sec > (time_t)(9223372036854775807LL - 4))
+			return;		/* (the harness itself must not overflow time_t) */
 		R->cnt[N_HEAP_BYHANDLE]++;
 		us = (uint64_t)e->tv.tv_usec + b % 3000000;
 		e->tv.tv_sec += (time_t)(us / 1000000);
